@@ -1,5 +1,6 @@
 """Rule functions about chain (re)organisation handling shared by several properties (C06, C07, C11)."""
 from engine import *
+import re
 
 MONP = 'lightning::chain::channelmonitor::'
 MON = MONP + 'ChannelMonitorImpl::'
@@ -172,4 +173,31 @@ def threshold_shape(F, rule):
 		gs = [Guard(hr, c) for c in comparisons(hr)]
 		okh = len(gs) == 1 and (gs[0].oriented(r'height$') or (None, None, None))[1:3] in (('Ge', 0), ('Gt', -1)) and any('confirmation_threshold' in v for v in gs[0].nf[0])
 		out.append(Result(rule, okh, ('ok:' if okh else 'shape:') + 'reached@' + label, '%s: threshold reached iff best height >= confirmation_threshold() (%s)' % (label, [g.text() for g in gs]), len(gs), where=F.where(hr.name)))
+	# open-coded maturity tests: any other comparison in the crate built from ANTI_REORG_DELAY must say the same thing,
+	#   event height - best height <= -(ANTI_REORG_DELAY - 1)     (or its exact negation)
+	n = 0
+	for fn in sorted(F.fns):
+		if not (fn.startswith('lightning::') or fn.startswith('<lightning::')) or fn.endswith('OnchainEventEntry::confirmation_threshold'):
+			continue
+		try:
+			fu = F.func(fn)
+		except AnchorMissing:
+			continue
+		for c in comparisons(fu):
+			g = Guard(fu, c)
+			if not any(u.endswith('::ANTI_REORG_DELAY') for u in g.nf[3]):
+				continue
+			n += 1
+			terms, op, K, used = g.nf
+			ev = [v for v in terms if v.endswith('height') and 'best_block' not in v and 'best_height' not in v]
+			best = [v for v in terms if 'best_block' in v or 'best_height' in v or v in ('height', 'cur_height', 'current_height')]
+			ok = False
+			if len(terms) == 2 and len(ev) == 1 and len(best) == 1 and terms[ev[0]] == -terms[best[0]] and abs(terms[ev[0]]) == 1:
+				o = g.oriented(re.escape(ev[0]) + '$')
+				# matured:  ev - best <= -(ard-1)  |  ev - best < -(ard-2) ; not matured: ev - best > -(ard-1) | >= -(ard-2)
+				ok = (o[1], o[2]) in (('Le', -(ard - 1)), ('Lt', -(ard - 2)), ('Gt', -(ard - 1)), ('Ge', -(ard - 2)))
+			short = fn.split('::{closure')[0].rsplit('::', 1)[-1]
+			out.append(Result(rule, ok, ('ok:' if ok else 'shape:') + 'open-coded-maturity@' + short, '%s: open-coded maturity test `%s` %s' % (short, g.text(), 'is height + ANTI_REORG_DELAY - 1 <= best height' if ok else 'is not equivalent to `height + ANTI_REORG_DELAY(=%d) - 1 <= best height`: the conclusion would be drawn at a different depth than by has_reached_confirmation_threshold' % ard), 1, where=F.where(fn, g.line)))
+	if n < 1:
+		out.append(Result(rule, False, 'floor:open-coded-maturity', 'no open-coded ANTI_REORG_DELAY comparison found (expected the restart-time replay in get_onchain_failed_outbound_htlcs)', 0))
 	return out
